@@ -556,6 +556,37 @@ pub fn gen_write(rng: &mut Rng) -> Case {
     if rng.chance(10) {
         opts.output_format = Some("json".into());
     }
+    // a stray `<file>.tmp` beside a target (left by an editor, or by an earlier interrupted run of
+    // some tool): not a Lua file, must stay as it is, and must not get in anybody's way
+    if rng.chance(6) {
+        if let Some((p, _)) = files.first() {
+            w.files.insert(format!("{p}.tmp"), b"scratch\n".to_vec());
+            let stem = p.rsplit_once('.').map(|x| x.0).unwrap_or(p);
+            w.files.insert(format!("{stem}.tmp"), b"scratch2\n".to_vec());
+        }
+    }
+    // a verification failure the library produces by itself: `--verify` with require sorting on a
+    // file whose requires are out of order (the reordered AST differs from the input's)
+    if rng.chance(5) {
+        opts.verify = true;
+        if !opts.overrides.iter().any(|(k, _)| k == "sort_requires") {
+            opts.overrides.push(("sort_requires".into(), "true".into()));
+        }
+        let p = wpath(rng.pick(DIRS), "req.lua");
+        w.files.insert(p, b"local b = require(\"b\")\nlocal a = require(\"a\")\nprint(a, b)\n".to_vec());
+    }
+    // a byte range on the first run only: later runs see the whole file again
+    let ranged_first_run = rng.chance(8);
+    if ranged_first_run {
+        opts.range_start = Some(0);
+        opts.range_end = Some(rng.range(5, 40) as usize);
+    }
+    // the places a tool might keep state between runs exist and are writable
+    if rng.chance(30) {
+        w.home = Some("home".into());
+        w.files.insert("home/.cache/.keep".into(), Vec::new());
+        w.files.insert("home/.config/.keep".into(), Vec::new());
+    }
     let formatted: Vec<String> = files.iter().filter(|(_, c)| *c == Class::Formatted).map(|(p, _)| p.clone()).collect();
     finalise_formatted(&mut w, &opts, &formatted);
     let sel = model::select(&w, &opts);
@@ -581,6 +612,11 @@ pub fn gen_write(rng: &mut Rng) -> Case {
         let f: &String = rng.pick(&cands);
         faults.push(fault("fs.canonicalize", f, rng.pick(&["EIO", "EACCES"])));
     }
+    if rng.chance(6) && !cands.is_empty() {
+        // only an implementation that replaces files by rename ever meets this one
+        let f: &String = rng.pick(&cands);
+        faults.push(fault("fs.rename", f, "EIO"));
+    }
     if rng.chance(12) && !abort {
         add_permission_faults(rng, &mut w, &opts);
     }
@@ -592,6 +628,10 @@ pub fn gen_write(rng: &mut Rng) -> Case {
         // the user has edited in between must be formatted again
         let mut o2 = opts.clone();
         o2.num_threads = random_threads(rng);
+        if ranged_first_run && rng.chance(60) {
+            o2.range_start = None;
+            o2.range_end = None;
+        }
         let mut pre_edits = Vec::new();
         if rng.chance(45) && !cands.is_empty() {
             let f: &String = rng.pick(&cands);
@@ -606,6 +646,13 @@ pub fn gen_write(rng: &mut Rng) -> Case {
         o3.check = true;
         o3.num_threads = random_threads(rng);
         o3.output_format = Some("summary".into());
+        if ranged_first_run {
+            o3.range_start = None;
+            o3.range_end = None;
+        }
+        if rng.chance(30) {
+            o3.verify = !o3.verify;
+        }
         let mut pre_edits = Vec::new();
         if rng.chance(30) && !cands.is_empty() {
             let f: &String = rng.pick(&cands);
